@@ -29,7 +29,7 @@ MANIFEST = {
             "theorem ufs_history_preserved_partial shows for ALL histories with any number of clean restarts that every URL is served "
             "exactly the last completely stored, not purged response, provided no file number is re-allocated while the unlink of its previous "
             "file is still queued (ufs_unlink_race_counterexample: without that a stored response is lost); for rock, "
-            "rock_single_chain_restored / rock_stale_cell_drops_entry_counterexample / rock_purged_entry_returns_counterexample describe "
+            "rock_single_slot_restored / rock_single_chain_restored / rock_stale_cell_drops_entry_counterexample / rock_purged_entry_returns_counterexample describe "
             "Rock::Rebuild on the cells a clean run leaves; the models are tied to the rebuilt binary by scenario correspondence over four "
             "cache_dir types and, for rock, by replaying the slot headers read from the real db file through the model's rebuild",
     "note": "trusted: Lean kernel, python rig (origin/client stubs), loopback TCP; not modelled: disk I/O modules, helper processes, "
